@@ -9,4 +9,4 @@ if [ ! -d .deps/jsonschema ]; then
   PIP_NO_INDEX=1 /venv/bin/pip install --no-index --find-links /opt/veriftools/wheels --target /verif/.deps jsonschema
   rm -rf .deps/typing_extensions* .deps/__pycache__
 fi
-/venv/bin/python -c "import sys; sys.path.append('/verif/.deps'); import jsonschema; print("jsonschema ok")"
+/venv/bin/python -c "import sys; sys.path.append('/verif/.deps'); import jsonschema, referencing, rpds; print('jsonschema ok')"
